@@ -57,6 +57,18 @@ pub struct Pass {
     pub class: String,
 }
 
+/// Run `f` over the steps in order inside one case (one thread, one process): state that a library keeps between calls
+/// (thread-local memos, lazily filled caches) is carried from step to step. The first failing step is the failure of the case.
+pub fn seq<C>(steps: &[C], f: impl Fn(&C) -> CaseResult) -> CaseResult {
+    for (i, c) in steps.iter().enumerate() {
+        f(c).map_err(|mut e| {
+            e.detail = format!("step {} of a sequence of {} related cases on one thread: {}", i, steps.len(), e.detail);
+            e
+        })?;
+    }
+    pass(true, format!("sequence-of-{}", steps.len()))
+}
+
 pub fn pass(nt: bool, class: impl Into<String>) -> CaseResult {
     Ok(Pass {
         nt,
@@ -555,6 +567,26 @@ impl Ctx {
         self.progress(&sub, t0);
     }
 
+    /// Cold-start variant: every case is checked in a *fresh process* (this binary, `replay <file>`), so the library call the check
+    /// function makes first really is the first library call of that process — lazily initialised tables, caches and thread-locals are
+    /// in their initial state. In the child (and when a violation is replayed) `f` runs directly.
+    pub fn cold<C, F>(&self, name: &str, rule: &str, cases: impl FnOnce() -> Vec<C>, f: F)
+    where
+        C: Serialize + DeserializeOwned + Hash + Send + Sync,
+        F: Fn(&C) -> CaseResult + Sync,
+    {
+        if !self.wants(name) {
+            return;
+        }
+        if self.is_replay() {
+            self.do_replay::<C>(name, &f);
+            return;
+        }
+        let prop = self.prop;
+        let sub_name = name.to_string();
+        self.enumerate(name, rule, false, cases, move |c: &C| cold_child(prop, &sub_name, c));
+    }
+
     /// Sequential variant for cases that are individually huge / internally parallel.
     pub fn listed_seq<C, F>(&self, name: &str, rule: &str, cases: impl FnOnce() -> Vec<C>, f: F)
     where
@@ -797,4 +829,40 @@ pub fn start_watchdog(secs: u64, prop: &'static str) {
         );
         std::process::exit(2);
     });
+}
+
+/// Run one case of `sub` in a fresh process and translate the child's report back into a CaseResult.
+fn cold_child<C: Serialize>(prop: &str, sub: &str, case: &C) -> CaseResult {
+    use std::sync::atomic::AtomicU64;
+    static N: AtomicU64 = AtomicU64::new(0);
+    let doc = json!({ "property": prop, "sub": sub, "case": serde_json::to_value(case).unwrap_or(Value::Null) });
+    let path = std::env::temp_dir().join(format!("gmverif-cold-{}-{}.json", std::process::id(), N.fetch_add(1, Ordering::Relaxed)));
+    let harness_err = |what: String| Err(Fail { key: "harness-cold-start-child-error".into(), detail: what });
+    if let Err(e) = std::fs::write(&path, doc.to_string()) {
+        return harness_err(format!("cannot write {}: {}", path.display(), e));
+    }
+    let exe = match std::env::current_exe() {
+        Ok(e) => e,
+        Err(e) => return harness_err(format!("current_exe: {}", e)),
+    };
+    let out = std::process::Command::new(exe).arg("replay").arg(&path).env("VERIF_COLD_CHILD", "1").output();
+    let _ = std::fs::remove_file(&path);
+    let out = match out {
+        Ok(o) => o,
+        Err(e) => return harness_err(format!("spawn: {}", e)),
+    };
+    let text = String::from_utf8_lossy(&out.stdout).to_string();
+    match out.status.code() {
+        Some(0) => {
+            let class = text.lines().find_map(|l| l.split(" class=").nth(1)).unwrap_or("known-finding").to_string();
+            let nt = !text.contains(" nt=false");
+            Ok(Pass { nt, class: format!("cold/{}", class) })
+        }
+        Some(1) => {
+            let key = text.lines().find_map(|l| l.split_once(" key=").filter(|_| l.trim_start().starts_with("sub=")).map(|(_, k)| k.to_string())).unwrap_or_else(|| "unparsed".into());
+            let detail = text.lines().find_map(|l| l.trim_start().strip_prefix("detail=")).unwrap_or("").to_string();
+            Err(Fail { key: format!("{} input=first-call-of-a-fresh-process", key), detail: format!("in a fresh process: {}", detail) })
+        }
+        code => harness_err(format!("child exit {:?}: {} {}", code, truncate_str(&text, 600), truncate_str(&String::from_utf8_lossy(&out.stderr), 600))),
+    }
 }
